@@ -336,6 +336,94 @@ theorem C12_site_error_status (s : Site) (path : String) (r : Req) (n : Nat) (st
   rw [site_effectiveErrors] at h
   rw [siteServe_eq]; exact h
 
+/-! ### gzip's response filters (min_length, an already encoded response, 204)
+
+`gzip` wraps the writer in a ResponseFilterWriter whose filters decide, when the header is
+committed, between the compressing writer and the plain one.  `dec` is ANY such decision (a
+function of the calls that reach gzip); `respFilters` is the one the code takes.  Whatever is
+decided, every clause holds — in particular the header is committed once also when the handler
+flushes a response the filters declined (a Flush is a Write for the model: on the plain writer it
+goes straight to the underlying writer). -/
+
+/-- the judged predicate, for every decision of the response filters -/
+theorem C12_filtered_good (dec : List WOp → Bool) (c : Cfg) (r : Req) (n : Nat) (i : Inner) (hok : Inner.ok i = true) :
+    good (tplOn c r) (effectiveErrors c) i (serveF dec c r n i) = true :=
+  inv_server _ _ _ _ (inv_chainF dec c r n i hok)
+
+/-- net/http's wire rules applied to any response of which `good` holds -/
+theorem goodWire_of_good (head tpl : Bool) (m : Option ErrMode) (i : Inner) (R : Resp)
+    (hg : good tpl m i R = true) : goodWire head tpl m i (wire head R) = true := by
+  unfold goodWire wire
+  by_cases hb : bodiless head R.status = true
+  · have hcore : goodCore tpl m i R = true := by
+      unfold good at hg; simp only [Bool.and_eq_true] at hg; exact hg.1
+    have hs := statusOK_of_core _ _ _ _ hcore
+    have key : ∀ R' : Resp, R'.commits = R.commits → R'.status = R.status →
+        statusOK tpl m i R' = true :=
+      fun R' h1 h2 => by rw [statusOK_congr _ _ _ R R' h1 h2]; exact hs
+    simp only [hb, if_true, Bool.and_eq_true]
+    refine ⟨⟨key _ rfl rfl, rfl⟩, ?_⟩
+    by_cases h24 : R.status = 204 ∨ R.status = 304
+    · rcases h24 with h24 | h24 <;> simp [h24]
+    · have h1 : ¬ R.status = 204 := fun e => h24 (Or.inl e)
+      have h2 : ¬ R.status = 304 := fun e => h24 (Or.inr e)
+      simp [h1, h2]
+  · have hb' : bodiless head R.status = false := by simpa using hb
+    simp only [hb', Bool.false_eq_true, if_false]
+    exact hg
+
+theorem C12_filtered_model_verdict_ok (dec : List WOp → Bool) (c : Cfg) (r : Req) (n : Nat) (i : Inner)
+    (hok : Inner.ok i = true) :
+    verdict r.head (tplOn c r) (effectiveErrors c) i (serveWireF dec c r n i) = "ok" := by
+  unfold verdict serveWireF
+  rw [goodWire_of_good _ _ _ _ _ (C12_filtered_good dec c r n i hok)]; rfl
+
+/-- committed at most once, whatever the filters decide (a panic after writing excepted) -/
+theorem C12_filtered_commits_once (dec : List WOp → Bool) (c : Cfg) (r : Req) (n : Nat) (i : Inner)
+    (hok : Inner.ok i = true) (hna : ∀ s b, i ≠ .panicAfter s b) : (serveF dec c r n i).commits ≤ 1 := by
+  have h : goodCore (tplOn c r) (effectiveErrors c) i (serveF dec c r n i) = true := by
+    have := C12_filtered_good dec c r n i hok
+    unfold good at this
+    simp only [Bool.and_eq_true] at this
+    exact this.1
+  unfold goodCore at h
+  cases i with
+  | ret s e =>
+    by_cases hs : s ≥ 400
+    · simp only [hs, if_true, Bool.and_eq_true, beq_iff_eq] at h; omega
+    · simp only [hs, if_false, Bool.and_eq_true, decide_eq_true_eq] at h; exact h.1.1
+  | write s b e k cl => simp only [Bool.and_eq_true, beq_iff_eq] at h; omega
+  | panicBefore => simp only [Bool.and_eq_true, beq_iff_eq] at h; omega
+  | panicAfter s b => exact absurd rfl (hna s b)
+
+/-- filters that never decline give the chain of the theorems above -/
+theorem C12_filters_all_compress (c : Cfg) (r : Req) (n : Nat) (i : Inner) :
+    serveF (fun _ => true) c r n i = serve c r n i := by
+  unfold serveF serve; rw [chainF_all]
+
+/-- what the driver computes and judges: the site as written, the response filters of the first
+gzip config that lets the request through, the facts they read off the response header -/
+theorem C12_site_filtered_model_verdict_ok (f : RespFacts) (s : Site) (path : String) (r : Req) (n : Nat)
+    (i : Inner) (hok : Inner.ok i = true) :
+    verdict r.head ((s.cfg path).templates && r.html) (effectiveErrors (s.cfg path)) i
+      (siteServeWireF f s path r n i) = "ok" := by
+  rw [siteServeWireF_eq]; exact C12_filtered_model_verdict_ok _ (s.cfg path) r n i hok
+
+/-- test: min_length 1000, a 404 written with Content-Length 5 and flushed — the filters decline,
+one commit, 404, the bytes uncoded, the Content-Length kept; with min_length 3 it is compressed -/
+example :
+    let i := Inner.write (some 404) [1, 2, 3, 4, 5] false .plain true
+    let c : Cfg := { log := false, gzip := true, header := false, errors := none, templates := false }
+    let len : Chunk → Nat := fun ch => match ch with | .inner b => b.length | _ => 0
+    (serveF (respFilters (some 1000) false len) c ⟨true, true, false⟩ 0 i =
+      { commits := 1, status := 404, body := [(.inner [1, 2, 3, 4, 5], false)],
+        cl := some (.inner [1, 2, 3, 4, 5]), live := some (.inner [1, 2, 3, 4, 5]) }) ∧
+    (serveF (respFilters (some 3) false len) c ⟨true, true, false⟩ 0 i).body = [(.inner [1, 2, 3, 4, 5], true)] ∧
+    (serveF (respFilters none true len) c ⟨true, true, false⟩ 0 i).body = [(.inner [1, 2, 3, 4, 5], false)] ∧
+    (serveF (respFilters none false len) c ⟨true, true, false⟩ 0 (.write (some 204) [7] false .plain false)).body =
+      [(.inner [7], false)] := by
+  decide
+
 /-! Non-vacuity and tests on literals. -/
 
 def full : Cfg := { log := true, gzip := true, header := true, errors := some .page404, templates := true }
@@ -446,10 +534,10 @@ example :
 /-- test: the meaning depends on the request path — `gzip { not /x }` then `gzip { level 9 }`:
 the second config compresses /x.html; alone, the first does not; `templates /f-` leaves /x.html alone -/
 example :
-    let s : Site := { log := [], gzip := [⟨["/x"], none⟩, ⟨[], some 9⟩], header := [⟨"/api", 1⟩], errors := [⟨.visible, []⟩, ⟨.visible, []⟩],
+    let s : Site := { log := [], gzip := [⟨["/x"], none, none⟩, ⟨[], some 9, none⟩], header := [⟨"/api", 1⟩], errors := [⟨.visible, []⟩, ⟨.visible, []⟩],
                       templates := [⟨"/F-"⟩] }
-    (s.cfg "/x.html").gzip = true ∧ ({ s with gzip := [⟨["/x"], none⟩] }.cfg "/x.html").gzip = false ∧
-    ({ s with gzip := [⟨["/x"], none⟩] }.cfg "/f-tok.html").gzip = true ∧ (s.cfg "/x.html").header = true ∧
+    (s.cfg "/x.html").gzip = true ∧ ({ s with gzip := [⟨["/x"], none, none⟩] }.cfg "/x.html").gzip = false ∧
+    ({ s with gzip := [⟨["/x"], none, none⟩] }.cfg "/f-tok.html").gzip = true ∧ (s.cfg "/x.html").header = true ∧
     (s.cfg "/x.html").templates = false ∧ (s.cfg "/f-tok.html").templates = true ∧ s.errMode = some .visible ∧
     { s with errors := [] }.errMode = some .plain ∧ { s with errors := [], gzip := [] }.errMode = none ∧
     { s with errors := [⟨.logFile "a", []⟩, ⟨.none, [404]⟩] }.errMode = some .page404 := by decide
